@@ -252,9 +252,13 @@ def annotate(lines, model_out):
     return res
 
 
-def run_impl(suite, lines, timeout=180):
+def run_impl(suite, lines, timeout=180, patient=False):
     env = dict(os.environ, KB_TMP=os.environ.get("KB_TMP", "/dev/shm" if os.path.isdir("/dev/shm") else "/tmp"),
                GOMEMLIMIT="2GiB")
+    if patient:
+        # confirmation re-run of a differing case: alone, with a generous bound on every expected-guided wait
+        env["KB_WAIT_MS"] = "20000"
+        timeout = 600
     return run_proc([KBHARNESS, "-suite", suite], lines, timeout, env=env)
 
 
@@ -279,9 +283,9 @@ class Case:
         self.model = None
         self.impl = None
 
-    def run(self):
+    def run(self, patient=False):
         self.model = run_model(self.model_suite, self.lines)
-        self.impl = run_impl(self.suite, annotate(self.lines, self.model))
+        self.impl = run_impl(self.suite, annotate(self.lines, self.model), patient=patient)
         return self
 
     def diff(self):
@@ -302,7 +306,7 @@ class Case:
 RERUNS = {"n": 0}
 
 
-def run_cases(cases, workers=14, confirm=True):
+def run_cases(cases, workers=10, confirm=True):
     """Run all cases in parallel. A case whose transcripts differ is re-run ALONE (up to twice) before
     anything is concluded from it: a genuine divergence is deterministic and reproduces, a timing
     artefact of a loaded machine (asynchronous observations are waited for with a bound) does not."""
@@ -314,7 +318,7 @@ def run_cases(cases, workers=14, confirm=True):
             while tries < 2 and (c.diff() is not None or any(x in ("TIMEOUT",) or x.startswith("CRASHED") for x in (c.impl or [])[-1:])):
                 tries += 1
                 RERUNS["n"] += 1
-                c.run()
+                c.run(patient=True)
     return res
 
 
